@@ -76,6 +76,8 @@ def catalogue():
     c["dict-secure"] = ({"k": "Dict", "key": {"k": "Str"}, "val": {"k": "Secure", "o": {"method": "aes"}}}, [D(("k", "sec-d"))], [])
     c["dict-challenge"] = ({"k": "Dict", "key": {"k": "Str"}, "val": {"k": "Challenge"}}, [D(("k", "pw-d"))], [D(("k", 5))])
     c["list-list"] = ({"k": "List", "o": {"default": [[1], []]}}, [[[1, [2]], D(("a", [None]))], [[1.5, "s"]]], ["x"])
+    c["str-req-nodflt"] = ({"k": "Str", "o": {"required": True}}, ["v", "w"], [None, "", 5])
+    c["dict-byteskey"] = ({"k": "Dict", "key": {"k": "Bytes", "o": {"encoding": "hex"}}, "val": {"k": "Int"}}, [D((Y(b"\xab\xcd"), 1)), D((Y(b"\xa0"), 2), ("k", 3))], [D((5, 1))])
     c["dict-any-dflt"] = ({"k": "Dict", "o": {"default": D(("d", 1))}}, [D(("k", 1))], ["x"])
     c["list-any-dflt"] = ({"k": "List", "o": {"default": [1, [2]]}}, [[3]], ["x"])
     return c
@@ -83,7 +85,7 @@ def catalogue():
 
 def quick_leaves():
     return ["str-norm", "str-regex-req", "int09", "int-req", "bool", "net", "bytes", "challenge", "list-int", "list-str-req",
-            "dict-typed", "any", "float", "host"]
+            "dict-typed", "any", "float", "host", "str-req-nodflt"]
 
 
 # ---------------------------------------------------------------------------------------------
@@ -412,6 +414,10 @@ def apply_op(w, op):
     if name == "mut":          # in-place mutation of a list/dict value reached by path
         target = chained(cfg, op[1])
         return mutate(w, target, op[2], op[3:])
+    if name == "render":         # serialisation: must be free of side effects
+        cfg.to_tree()
+        cfg.to_tree(virtual=True, sensitive_mask="*")
+        return cfg.dumps(op[1])
     if name == "from-sibling":   # assign the sibling configuration's (typed) value to this configuration
         path = op[1]
         owner = chained(cfg, path.rsplit(".", 1)[0]) if "." in path else cfg
@@ -492,11 +498,16 @@ class World:
             if not all(isinstance(V.dec(x), int) for x in s["items"]):
                 sch2 = cc.Schema(); sch2.y = cc.ListField(cc.StringField()); c = sch2(); c.y = [V.dec(x) for x in s["items"]]
             return c.y
+        if s["$"] == "foreign-list-plus":
+            base = self._resolve({"$": "foreign-list", "items": s["items"]})
+            return base + [V.dec(x) for x in s["plus"]]      # the concatenation of a foreign proxy: still a proxy of that field
         if s["$"] == "foreign-dict":
             sch = cc.Schema()
-            sch.y = cc.DictField(cc.StringField(), cc.AnyField())
+            items = V.dec(s["items"])
+            allint = all(isinstance(x, int) and not isinstance(x, bool) for x in items.values())
+            sch.y = cc.DictField(cc.StringField(), cc.IntField() if allint else cc.AnyField())
             c = sch()
-            c.y = V.dec(s["items"])
+            c.y = items
             return c.y
         raise ValueError(s)
 
@@ -548,6 +559,18 @@ def ops_for(spec, leafname, tier="quick"):
                           ["iadd", {"$": "foreign-list", "items": [bi]}],
                           ["setslice", [0, 0, None], {"$": "foreign-list", "items": [bn]}]):
                     ops.append(["mut", path] + m)
+        if kind == "List" and f.get("item") is not None and f["item"]["k"] in ("Int", "Str"):
+            it = f["item"]["k"]
+            loose = [10, 70000] if it == "Int" else [" n ", "UPPER-and-too-long"]
+            tight_ok = [2] if it == "Int" else ["b"]
+            for route in ("set", "setitem"):
+                ops.append([route, path, {"$": "foreign-list", "items": loose}])
+                ops.append([route, path, {"$": "foreign-list", "items": tight_ok}])
+                ops.append([route, path, {"$": "foreign-list-plus", "items": tight_ok, "plus": loose[:1]}])
+        if kind == "Dict" and f.get("val") is not None and f["val"]["k"] == "Int" and (f.get("key") or {}).get("k") == "Str":
+            for route in ("set", "setitem"):
+                ops.append([route, path, {"$": "foreign-dict", "items": D((" F ", 70000))}])
+                ops.append([route, path, {"$": "foreign-dict", "items": D(("g", 3))}])
         if kind == "Dict":
             ops.append(["mut", path, "setitem", "n", 1])
             ops.append(["mut", path, "update", D(("n", 2))])
@@ -578,6 +601,10 @@ def ops_for(spec, leafname, tier="quick"):
             ops.append(["set", key, 5])
             ops.append(["set", key, [1]])
             ops.append(["set", key, D(("nosuchfield", 1))] if not f.get("dynamic") else ["set", key, D(("extra", 1))])
+            if inner and _jsonlike(valid[-1]) and not f.get("dynamic"):
+                t = tree_for(inner[0][0], valid[-1])
+                ops.append(["set", key, {"$": "d", "v": t["v"] + [["nosuchfield", 1]]}])
+                ops.append(["setitem", key, {"$": "d", "v": t["v"] + [["nosuchfield", 1]]}])
             ops.append(["reset", key])
         if f["k"] == "List" and isinstance(f.get("item"), dict) and f["item"]["k"] in ("Schema", "CType"):
             v_ok, v_bad = valid[-1], (invalid[0] if invalid else None)
@@ -598,6 +625,10 @@ def ops_for(spec, leafname, tier="quick"):
                 ops.append(["set", key, [good, bad]])
                 ops.append(["itemset", key, 0, "c", v_bad])
             ops.append(["itemset", key, 0, "c", valid[0]])
+            if _jsonlike(v_ok):
+                unk = D(("c", v_ok), ("r", "x"), ("nosuchfield", 1)) if has_r else D(("c", v_ok), ("nosuchfield", 1))
+                for m in (["setitem", 0, unk], ["append", unk], ["insert", 0, unk]):
+                    ops.append(["mut", key] + m)
             ops.append(["mut", key, "append", 5])
             ops.append(["mut", key, "pop"])
             ops.append(["reset", key])
@@ -695,7 +726,11 @@ def explore(ctx, spec, leafname, depth, monitor, tier="quick", max_states=20000,
     cut = False
     if only is not None:
         hist, op = only
-        w = build_world(spec, hist, sibling)
+        try:
+            w = build_world(spec, hist, sibling)
+        except Exception as exc:  # noqa  (the constructor itself rejected the keywords)
+            monitor.ctor_failed(ctx, spec, hist[0][1], exc)
+            return 0, len(ops)
         before_ids = snapshot(w.cfg, with_ids=True)
         try:
             outcome = ("ok", apply_op(w, op)) if op is not None else ("ok", None)
